@@ -88,6 +88,9 @@ func c14Case(c *core.Ctx, r *core.Rand, i int, caseDir string) {
 			}
 		}
 		f.cacheAlt = []gen.Node{gen.Text{S: "[CACHED " + args[k] + "]"}, gen.Out{E: gen.Var{Name: "n"}}}
+		if r.P(1, 8) {
+			f.prog = nil // an empty file is a file too: it renders to nothing, and on disk it still wins over the cache
+		}
 		if k == failAt {
 			f.fail = r.Range(1, 3)
 		}
@@ -119,6 +122,16 @@ func c14Case(c *core.Ctx, r *core.Rand, i int, caseDir string) {
 		gen.Include{E: gen.Var{Name: "incname"}},
 		gen.Include{E: gen.Filt{X: gen.Lit{V: gen.Str(dir)}, Name: "append", Args: []gen.Expr{gen.Lit{V: gen.Str(base)}}}},
 		gen.For{Var: "i", Coll: gen.RangeE{A: intLit(1), B: intLit(2)}, Body: []gen.Node{gen.Include{E: gen.Lit{V: gen.Str(files[0].arg)}}}})
+	// an include whose argument expression depends on the loop variable: each iteration names another file
+	nparts := r.Range(2, 3)
+	for pi := 1; pi <= nparts; pi++ {
+		pf := &c14file{arg: fmt.Sprintf("part_%d.html", pi), state: r.Intn(3), prog: []gen.Node{gen.Text{S: fmt.Sprintf("<part %d ", pi)}, gen.Out{E: gen.Var{Name: "pi"}}, gen.Text{S: ">"}}}
+		pf.cacheAlt = []gen.Node{gen.Text{S: "[CACHED part]"}}
+		pf.src = gen.DefaultStyle.Source(pf.prog)
+		files = append(files, pf)
+	}
+	top = append(top, gen.For{Var: "pi", Coll: gen.RangeE{A: intLit(1), B: intLit(nparts)}, Body: []gen.Node{
+		gen.Include{E: gen.Filt{X: gen.Filt{X: gen.Lit{V: gen.Str("part_")}, Name: "append", Args: []gen.Expr{gen.Var{Name: "pi"}}}, Name: "append", Args: []gen.Expr{gen.Lit{V: gen.Str(".html")}}}}}})
 	badArg := -1
 	if r.P(1, 8) {
 		badArg = r.Intn(4)
